@@ -15,6 +15,8 @@ emitted as 0, so the bit-trick theorems of `Props/C11.lean` stop checking — a 
 never silently skipped.
 """
 import re, sys, json, os
+sys.path.insert(0, os.path.dirname(os.path.abspath(__file__)))
+from rustexpr import TranslationError, tokenize, P, subst, fold
 
 REPO = os.environ.get('VERIF_REPO', '/repo')
 OUT = sys.argv[1] if len(sys.argv) > 1 else os.path.join(os.path.dirname(os.path.abspath(__file__)), '..', 'lean', 'Dasp', 'Gen')
@@ -41,7 +43,46 @@ def mod_body(name):
     return nc[m.end():i - 1], m.end()
 
 NOSTD = r'if\s+x\s*>=\s*0\.0\s*\{\s*%(t)s::from_bits\(\s*\(\s*x\.to_bits\(\)\s*\+\s*(0x[0-9a-fA-F_]+|[0-9_]+)\s*\)\s*>>\s*([0-9]+)\s*\)\s*\}\s*else\s*\{\s*%(t)s::NAN\s*\}'
-FN = re.compile(r'#\[cfg\((not\()?feature\s*=\s*"std"\)?\)\]\s*pub\s+fn\s+sqrt\s*\(\s*x\s*:\s*(f32|f64)\s*\)\s*->\s*(f32|f64)\s*\{')
+FN = re.compile(r'#\[cfg\((not\()?feature\s*=\s*"std"\)?\)\]\s*(?:#\[[^\]]*\]\s*)*pub\s+fn\s+sqrt\s*\(\s*x\s*:\s*(f32|f64)\s*\)\s*->\s*(f32|f64)\s*\{')
+CONST = re.compile(r'const\s+([A-Za-z_][A-Za-z_0-9]*)\s*:\s*[iu](?:8|16|32|64|size)\s*=\s*([^;]*);')
+
+def module_consts(body):
+    """integer `const NAME: T = <constant expression>;` items of the module, evaluated in order"""
+    env = {}
+    for m in CONST.finditer(body):
+        try:
+            e = P(tokenize(m.group(2))).expr()
+            for n, v in env.items(): e = subst(e, n, v)
+            e = fold(e)
+            if e[0] == 'lit' and '.' not in e[1]: env[m.group(1)] = ('lit', e[1], None)
+        except TranslationError:
+            pass
+    return env
+
+def nostd_shape(fb, t, env):
+    """(bias, shift) if the body is, up to `let`s, early return, operand order, constant spelling and `/ 2^k`
+    for `>> k` on the unsigned pattern:  if x >= 0.0 { T::from_bits((x.to_bits() + BIAS) >> SHIFT) } else { T::NAN }"""
+    e = P(tokenize(fb)).stmts()
+    for n, v in env.items(): e = subst(e, n, v)
+    e = fold(e)
+    X = ('var', ['x'])
+    if not (e[0] == 'if' and e[1][0] == 'cmp' and e[1][1] == '>=' and e[1][2] == X and e[1][3][0] == 'lit' and float(e[1][3][1]) == 0.0 and '.' in e[1][3][1]):
+        raise TranslationError('guard is not `x >= 0.0`')
+    if e[3] != ('var', [t, 'NAN']): raise TranslationError('the other branch is not %s::NAN' % t)
+    a = e[2]
+    if not (a[0] == 'call' and a[1] == [t, 'from_bits']): raise TranslationError('result is not %s::from_bits(..)' % t)
+    b = a[2]
+    if b[0] == 'shift' and b[1] == '>>' and b[3][0] == 'lit': k = int(b[3][1])
+    elif b[0] == 'arith' and b[1] == '/' and b[3][0] == 'lit' and int(b[3][1]) > 0 and int(b[3][1]) & (int(b[3][1]) - 1) == 0: k = int(b[3][1]).bit_length() - 1
+    else: raise TranslationError('bit pattern is not `(..) >> K` (or `/ 2^K`)')
+    sm = b[2]
+    bits = ('method', 'to_bits', X, [])
+    if not (sm[0] == 'arith' and sm[1] == '+'): raise TranslationError('shifted operand is not a sum')
+    if sm[2] == bits and sm[3][0] == 'lit': c = int(sm[3][1])
+    elif sm[3] == bits and sm[2][0] == 'lit': c = int(sm[2][1])
+    else: raise TranslationError('sum is not `x.to_bits() + BIAS`')
+    return c, k
+
 
 for t, bits in (('f32', 32), ('f64', 64)):
     body, off = mod_body(t)
@@ -65,10 +106,10 @@ for t, bits in (('f32', 32), ('f64', 64)):
         if m.group(2) != t or m.group(3) != t:
             errors.append(dict(function='%s::sqrt (%s)' % (t, kind), line=ln, error='signature is not fn(%s) -> %s' % (t, t), text=text)); continue
         if nostd:
-            mm = re.fullmatch(NOSTD % dict(t=t), fb)
-            if not mm:
-                errors.append(dict(function='%s::sqrt (no_std)' % t, line=ln, error='unrecognised shape (expected `if x >= 0.0 { T::from_bits((x.to_bits() + C) >> K) } else { T::NAN }`)', text=text)); continue
-            c = int(mm.group(1).replace('_', ''), 0); k = int(mm.group(2))
+            try:
+                c, k = nostd_shape(fb, t, module_consts(body))
+            except (TranslationError, ValueError, IndexError) as ex:
+                errors.append(dict(function='%s::sqrt (no_std)' % t, line=ln, error='unrecognised shape: %s (expected `if x >= 0.0 { T::from_bits((x.to_bits() + C) >> K) } else { T::NAN }` up to lets / early return / operand order / constant spelling)' % ex, text=text)); continue
             consts['bias%d' % bits] = c; consts['shift%d' % bits] = k
             info['%s::sqrt (no_std)' % t] = dict(line=ln, bias=hex(c), shift=k, text=text)
         else:
